@@ -28,6 +28,9 @@ var handlers = map[string]Handler{}
 
 func Register(name string, h Handler) { handlers[name] = h }
 
+// HandlerFor returns a registered handler (used by wrappers that run another handler).
+func HandlerFor(name string) (Handler, bool) { h, ok := handlers[name]; return h, ok }
+
 type task struct {
 	ID  int             `json:"id"`
 	Sys string          `json:"sys"`
